@@ -108,6 +108,8 @@ type W struct {
 	watcherCh  chan string
 	// InternalSettled is the sum of mint-quote amounts settled internally (no Lightning inflow)
 	InternalSettled uint64
+	// SwapLoss is the sum over accepted swaps of inputs - outputs (the fees the client gave up)
+	SwapLoss uint64
 	// FeeBurned is the sum of input fees of accepted swaps/melts (value destroyed)
 	dbErrArmed string
 	// LastSwapOuts are the outputs of the most recent swap request (for verbatim replays)
